@@ -461,9 +461,20 @@ func init() {
 		for i, s := range results {
 			r.AddSkel(ds[i], s)
 		}
+		// For on shared ForOptions: the override schemas must not be written
+		cc.RunForSharedFamily(r)
+		// process-wide caches: complete before publication, never written afterwards
+		{
+			sk := []*Skeleton{{Name: "F-cache/jsonNames", Family: "F-cache"}}
+			sk, res := RunSkeletons(cc.P, sk, 1, cc.Timeout, func(w *Worker, _ *Skeleton) *SkelResult { return w.RunCacheKernel("C13") })
+			for i, s := range res {
+				r.AddSkel(sk[i], s)
+			}
+			r.Bounds = append(r.Bounds, "field-name cache (jsonNames): filled from cold in the engine for the Schema type; a value stored into a sync.Map counts as published, and any later write into it is a violation (confirmed with concurrent cold-cache calls under the race detector)")
+		}
 		r.Explanation = "Schedules are not enumerated (the engine has no model of Go's concurrency). What is decided, by symbolic execution of the real SSA over all instances within the template bounds, is a sufficient condition that makes schedules irrelevant: on every path of Validate (and of ApplyDefaults, except for the caller's own instance) no Store / map update / reflect Set targets memory that existed before the call (the imported Resolved, Schema tree, side tables, package-level variables after initialisation) unless it goes through a sync.Map. Calls that write only call-local memory cannot race with each other and behave as in isolation. A violation is confirmed natively by a deep before/after comparison or by running concurrent calls under the race detector."
 		r.Bounds = append(r.Bounds, boundsValidate...)
-		r.Outside = append(r.Outside, "For, Marshal, CloneSchemas and Resolve on shared inputs (their write footprints are not explored); the Go memory model itself; library internals behind intrinsics (regexp, fmt, maphash are documented safe for concurrent use)")
+		r.Outside = append(r.Outside, "Marshal, CloneSchemas and Resolve on shared inputs, and For beyond its TypeSchemas overrides (their write footprints are not explored); the Go memory model itself; library internals behind intrinsics (regexp, fmt, maphash are documented safe for concurrent use)")
 		r.Extra["paths_with_shared_writes"] = len(r.SharedWrites)
 	}
 	Checks["C14"] = func(cc *CheckCtx, r *Report) {
@@ -515,6 +526,16 @@ func init() {
 				r.AddSkel(ds[i], s)
 			}
 			r.Bounds = append(r.Bounds, "Resolve determinism: 10 concrete documents with (duplicate) $id, anchors, dynamic anchors and pointer references; the real Resolve runs in the engine and every map range forks over all permutations of its keys (maps of <= 4 keys); each path's rendering of bases/URIs/reference targets/anchors must equal the native one (exhaustive over iteration orders; no symbolic data, so this part is exploration rather than an SMT verdict)")
+		}
+		// (e) Marshal leaves PropertyOrder (and the memory behind it) alone, for every order list and property set
+		{
+			var cases []*KernelCase
+			for n := 0; n <= 2; n++ {
+				cases = append(cases, &KernelCase{Name: fmt.Sprintf("marshal-purity.order.len%d", n), Func: "VerifKernelPropertyOrder", Native: jsonschema.VerifKernelPropertyOrder, AllOrders: true, SchemaMarshalsTrue: true,
+					Args: []ArgSpec{boolArg(), boolArg(), boolArg(), boolArg(), strArg(n, "abcdz")}})
+			}
+			cc.RunKernels(r, cases)
+			r.Bounds = append(r.Bounds, "Marshal purity: the C19 kernel (real orderedProperties.MarshalJSON, symbolic property presence, order lists of length <= 2 with spare capacity) also asserts that the list and its spare capacity are unchanged after the call")
 		}
 		// scaffold (native, not solver-decided): Resolve leaves the Schema tree untouched; repeated Marshal is byte-identical
 		impure, nondet := 0, 0
